@@ -19,7 +19,7 @@ CLAIMED = {
    note='A failed producer is treated as dead (no recovery); sort/reverse/sequence-length/next-batches/statistics are excepted by the property and not used.'),
  'C14': dict(engine='A-environment', level='fault_enumeration', ref='4 (C14)',
    technique='deterministic simulation: try/except/else/finally/raise/return programs, exception class and raising position enumerated per program over a class hierarchy; outcome and marker history compared with a reference interpreter that uses Python\'s own try/except/finally',
-   text='Per generated program every raising position x exception class is enumerated (plus seeded pairs and repeated renders of the same cooked template; a quarter of the programs run under the package's RestrictedDTML mix-in inside a security context); oracle is the final outcome and the ordered history of part markers predicted by a reference interpreter whose control flow is Python\'s own.',
+   text='Per generated program every raising position x exception class is enumerated (plus seeded pairs and repeated renders of the same cooked template; a quarter of the programs run under the RestrictedDTML mix-in of the package inside a security context); oracle is the final outcome and the ordered history of part markers predicted by a reference interpreter whose control flow is Python\'s own.',
    note='Trusts the reference interpreter for the try/raise/return sub-language; non-Exception BaseExceptions and errors inside a raise body other than dtml-return are not asserted.'),
  'C17': dict(engine='D-lifecycle', level='exploration', ref='4 (C17)',
    technique='deterministic simulation of an object lifecycle: seeded histories of render / failed render / restart (pickle) / deepcopy / munge / munge racing with a render (two threads under the seeded scheduler) / cook / var / file change / file fault on an in-memory file system, checked step by step against a freshly constructed template',
